@@ -477,6 +477,7 @@ func c18RacePass() {
 		for i := range ops {
 			for j := i; j < len(ops); j++ {
 				for rep := 0; rep < reps/len([]int{1, 2, 4, 16})+1; rep++ {
+					tensor.VerifResetLazyGlobals() // cold start: the first-use paths of lazily filled tables run in every program
 					s := c18Setup()
 					var wg sync.WaitGroup
 					start := make(chan struct{})
